@@ -66,6 +66,19 @@ pub async fn check_global(c: &mut Cluster) {
     check_pairs(&mut c.oracle, &views);
     check_clients(c);
 
+    // ---- C31: only nodes that really were leader in the reported term are announced
+    let pend = std::mem::take(&mut c.oracle.pending_notifications);
+    for (node, lid, term) in pend {
+        let really = c.oracle.leader_first_seen.contains(&(lid, term)) || c.oracle.election_votes.contains_key(&(lid, term));
+        if !really {
+            c.oracle.violate(
+                "C31",
+                format!("fake{lid}t{term}"),
+                format!("node {node} was notified that node {lid} leads term {term}, but node {lid} never won an election for term {term}"),
+            );
+        }
+    }
+
     // ---- C27: a join is answered successfully only once the node's AddNode entry is committed;
     //      a node counts itself a voter only after a committed promotion names it
     let joins = c.oracle.joins.clone();
@@ -373,6 +386,30 @@ pub fn check_clients(c: &mut Cluster) {
                     ),
                 ));
             }
+            // a lease read needs a VOTER majority that acknowledged the leader within the lease
+            // window (timed runs): learners do not count
+            if c.opts.timed {
+                if let Some(v) = c.last_views.get(&cl.node) {
+                    let learner = d_engine_proto::common::NodeRole::Learner as i32;
+                    let active = d_engine_proto::common::NodeStatus::Active as i32;
+                    let voters: Vec<u32> = v.members.iter().filter(|(id, role, st)| *id != cl.node && *role != learner && *st == active).map(|(id, _, _)| *id).collect();
+                    let fresh = |id: &u32| c.last_ack_ms.get(&(cl.node, *id)).map(|a| c.clock_ms.saturating_sub(*a) <= c.opts.lease_ms).unwrap_or(false);
+                    let fresh_voters = voters.iter().filter(|id| fresh(id)).count();
+                    let total = voters.len() + 1;
+                    if (fresh_voters + 1) * 2 <= total {
+                        let learners_fresh: Vec<u32> = v.members.iter().filter(|(id, role, _)| *id != cl.node && *role == learner && fresh(id)).map(|(id, _, _)| *id).collect();
+                        let text = format!(
+                            "node {} answered a lease read from local state although only {} of its {} other voters acknowledged it within the lease window ({} ms){}",
+                            cl.node, fresh_voters, voters.len(), c.opts.lease_ms,
+                            if learners_fresh.is_empty() { String::new() } else { format!("; learner(s) {learners_fresh:?} did - a learner's acknowledgement must not count toward the lease quorum") }
+                        );
+                        viol.push(("C12".into(), format!("leaseq{}", cl.id), text.clone()));
+                        if !learners_fresh.is_empty() {
+                            viol.push(("C27".into(), format!("leaseq{}", cl.id), text));
+                        }
+                    }
+                }
+            }
             let is_leader_now = c.last_views.get(&cl.node).map(|v| v.role == RoleKind::Leader).unwrap_or(false);
             if !is_leader_now && cl.role_at_invoke != RoleKind::Leader {
                 viol.push((
@@ -396,7 +433,15 @@ pub fn check_clients(c: &mut Cluster) {
 fn sticky_vote_cause(c: &Cluster, node: u32, term: u64) -> Option<String> {
     for ((m, t), (quorum, _asked)) in c.oracle.election_votes.iter() {
         if *m != node && *t > term && c.oracle.leader_seen_at.contains_key(&(*m, *t)) {
-            let followers: Vec<u32> = quorum.iter().copied().filter(|v| *v != *m && *v != node).collect();
+            // a voter (other than the two leaders) that granted although it had acknowledged
+            // `node` within the lease window before the new leader appeared
+            let elected_ms = c.oracle.leader_seen_ms.get(&(*m, *t)).copied().unwrap_or(c.clock_ms);
+            let followers: Vec<u32> = quorum
+                .iter()
+                .copied()
+                .filter(|v| *v != *m && *v != node)
+                .filter(|v| !c.opts.timed || c.last_ack_ms.get(&(node, *v)).map(|a| elected_ms.saturating_sub(*a) <= c.opts.lease_ms).unwrap_or(false))
+                .collect();
             if !followers.is_empty() {
                 return Some(format!(
                     " (node {m} won term {t} with the vote of {followers:?}, which granted it while node {node}'s lease on them was still running: votes are granted without regard to a live leader)"
